@@ -363,7 +363,7 @@ static void dec_open(const unsigned char *data, int len, int fsz, int kind)
 }
 
 /* fixed-point library: gain-0 and gain-g twins on the 16-bit entry point */
-static void do_dec_fixed(const unsigned char *data, int len, int fsz, int fec, int kind, int ch, int g)
+static void do_dec_fixed(const unsigned char *data, int len, int fsz, int fec, int kind, int fs, int ch, int g)
 {
    static opus_int16 s0[MAXFR * 2], s16[MAXFR * 2];
    int r0, rg, i, n, can;
@@ -384,16 +384,17 @@ static void do_dec_fixed(const unsigned char *data, int len, int fsz, int fec, i
    js_int("l0", get_dur(D0)); js_int("lg", get_dur(DG)); js_int("l16", get_dur(DG)); js_int("l24", get_dur(DG));
    {
       /* beyond the container: the gain-0 sample times 10^(g/5120) exceeds twice the 16-bit range */
-      double ideal = pow(10.0, g / 5120.0); long o = 0, w = 0, m = 32767;
+      double ideal = pow(10.0, g / 5120.0); long o = 0, w = 0, wh = 0, m = 32767, mh = 32767;
+      int head = (kind == 2) ? n : (fs / 200) * ch;     /* as in do_dec */
       for (i = 0; i < n; i++) {
          if (fabs((double)s0[i]) * ideal > 2.0 * 32767.0) {
             int a = s16[i] < 0 ? -(int)s16[i] : s16[i];
             o++;
-            if ((s0[i] > 0) != (s16[i] > 0) || s16[i] == 0) w++;
-            if (a < m) m = a;
+            if ((s0[i] > 0) != (s16[i] > 0) || s16[i] == 0) { if (i < head) wh++; else w++; }
+            if (i < head) { if (a < mh) mh = a; } else if (a < m) m = a;
          }
       }
-      js_int("o16", o); js_int("w16", w); js_int("m16", m); js_int("o24", 0); js_int("w24", 0); js_int("m24", 32767);
+      js_int("o16", o); js_int("w16", w); js_int("wh16", wh); js_int("m16", m); js_int("mh16", mh); js_int("o24", 0); js_int("w24", 0); js_int("m24", 32767);
    }
    js_int("can", can);
    js_close();
@@ -408,7 +409,7 @@ static void do_dec(const unsigned char *data, int len, int fsz, int fec, int kin
    int r0, rg, r16, r24, i, n, can;
    unsigned char *pk;
    hx_buf b0, bg, b16, b24;
-   if (FX) { do_dec_fixed(data, len, fsz, fec, kind, ch, g); return; }
+   if (FX) { do_dec_fixed(data, len, fsz, fec, kind, fs, ch, g); return; }
    pk = data ? hx_exact(data, len) : NULL;
    dec_open(data, len, fsz, kind);
    hx_arm(30);
@@ -452,7 +453,7 @@ static void do_dec(const unsigned char *data, int len, int fsz, int fec, int kin
       }
       js_int("nf", nf); js_int("zb", zb);
       rat_log(&hd, "hn", "hq", "hs", "hneg"); rat_log(&tl, "tn", "tq", "ts", "tneg");
-      js_int("o16", o16); js_int("w16", w16); js_int("m16", m16); js_int("o24", o24); js_int("w24", w24); js_int("m24", m24);
+      js_int("o16", o16); js_int("w16", w16); js_int("wh16", 0); js_int("m16", m16); js_int("mh16", 32767); js_int("o24", o24); js_int("w24", w24); js_int("m24", m24);
    }
    js_int("can", can);
    js_close();
